@@ -529,6 +529,12 @@ func (m *metadataAPI) ResumeStream(ctx context.Context, req *proto.ResumeStreamO
 	wg.Add(len(req.Partitions))
 	for _, partitionID := range req.Partitions {
 		partition := m.GetPartition(req.Stream, partitionID)
+		if partition == nil {
+			// The stream was deleted, or the metadata was reset because the
+			// server is shutting down, after the resume was committed.
+			wg.Done()
+			continue
+		}
 		m.startGoroutineWithArgs(func(args ...interface{}) {
 			m.waitForPartitionLeader(ctx, args[0].(*proto.Partition))
 			wg.Done()
